@@ -263,6 +263,25 @@ def item_groups(pb, rec):
     return g
 
 
+NAMING_FUNCTIONS = {
+    "_get_mangled_name", "_get_pddl_name", "get_pddl_name", "get_item_named",
+    "_get_anml_name", "_get_anml_valid_name", "_is_valid_anml_name",
+}  # fmt: skip
+
+
+def naming_site(ex):
+    """Name of the writers' name-choosing function in which `ex` was raised (innermost library frame), else None."""
+    import traceback
+
+    tb = [f for f in traceback.extract_tb(ex.__traceback__) if f.filename.endswith(("pddl_writer.py", "anml_writer.py"))]
+    if tb and tb[-1].name in NAMING_FUNCTIONS:
+        # (the wrapper of anml_capture is not a library frame; the innermost frame must be the raise site itself)
+        last = traceback.extract_tb(ex.__traceback__)[-1]
+        if last.filename == tb[-1].filename and last.name == tb[-1].name:
+            return tb[-1].name
+    return None
+
+
 # ---- PDDL ---------------------------------------------------------------------------------------------------------
 def judge_pddl(pb, rec, groups, wbase, res, temporal):
     from unified_planning.io import PDDLWriter
@@ -280,6 +299,14 @@ def judge_pddl(pb, rec, groups, wbase, res, temporal):
         res.count("pddl_writer_rejected:" + type(ex).__name__)
         return None
     except _env.INTERNAL_EXC as ex:
+        site = naming_site(ex)
+        if site is not None:
+            # the property promises a name for every item of every problem: an internal exception raised by the
+            # name-choosing code itself (not by the rest of the writer) breaks it
+            res.case()
+            res.mon()
+            viol(f"naming-raises:{type(ex).__name__}:{site}", f"the name-choosing code raised {type(ex).__name__}: {str(ex)[:120]} in {site}", observed=f"{type(ex).__name__}: {str(ex)[:200]}", site=site)
+            return None
         res.count("pddl_writer_rejected")
         res.count("pddl_writer_internal_exception:" + type(ex).__name__)
         return None
@@ -410,6 +437,12 @@ def judge_anml(pb, rec, groups, wbase, res):
             res.count("anml_writer_rejected:" + type(ex).__name__)
             return False
         except _env.INTERNAL_EXC as ex:
+            site = naming_site(ex)
+            if site is not None:
+                res.case()
+                res.mon()
+                viol(f"naming-raises:{type(ex).__name__}:{site}", f"the name-choosing code raised {type(ex).__name__}: {str(ex)[:120]} in {site}", observed=f"{type(ex).__name__}: {str(ex)[:200]}", site=site)
+                return False
             res.count("anml_writer_rejected")
             res.count("anml_writer_internal_exception:" + type(ex).__name__)
             return False
@@ -435,7 +468,10 @@ def judge_anml(pb, rec, groups, wbase, res):
             res.count("anml_renamed")
         if not N.anml_valid_name(n):
             kind = type(item).__name__.lstrip("_")
-            viol("invalid-identifier", f"{kind} {orig!r} is written as {n!r}, which is not an ANML identifier", original=orig, observed=n, item_kind=kind)
+            # one string per way of escaping the mangling: (was the name changed at all?) x (shape of the emitted name)
+            how = ("unmangled" if n == orig else "mangled") + ":" + N.anml_invalid_shape(n)
+            res.count("anml_invalid_char_class:" + N.anml_invalid_char_class(n))
+            viol(f"invalid-identifier:{how}", f"{kind} {orig!r} is written as {n!r}, which is not an ANML identifier", original=orig, observed=n, item_kind=kind, char_class=N.anml_invalid_char_class(n))
             ok = False
         elif N.anml_is_keyword(n):
             viol(f"keyword:{n}", f"{type(item).__name__} {orig!r} is written as the ANML keyword {n!r}", original=orig, observed=n)
